@@ -83,15 +83,77 @@ class Acc:
         return {"viols": self.viols, "cnt": self.cnt, "n": self.n, "nt": self.nt}
 
 
+class Bad:
+    """A value read from the implementation that is not None / number / 1-D numeric sequence."""
+
+    def __init__(self, v):
+        self.text = "%s %s" % (type(v).__name__, repr(v)[:120])
+
+    def __repr__(self):
+        return "<unusable value: %s>" % self.text
+
+    def __eq__(self, other):
+        return isinstance(other, Bad) and other.text == self.text
+
+    __hash__ = None
+
+
 def _pv(v):
-    """Parameter value -> None | float | list of floats."""
+    """Parameter value -> None | float | list of floats | Bad (total: never raises)."""
     import numpy as np
 
+    try:
+        if v is None:
+            return None
+        if isinstance(v, (list, tuple, np.ndarray)):
+            arr = np.asarray(v)
+            if arr.ndim != 1 or arr.dtype == object or arr.dtype.kind not in "fiub":
+                return Bad(v)
+            return [float(x) for x in arr] if len(arr) else None
+        if isinstance(v, (str, bytes)):
+            return Bad(v)
+        return float(v)
+    except Exception:
+        return Bad(v)
+
+
+def _shape(v):
+    """None | 0 (scalar) | n (1-D sequence of n numbers) | 'bad'."""
     if v is None:
         return None
-    if isinstance(v, (list, tuple, np.ndarray)):
-        return [float(x) for x in v] if len(v) else None
-    return float(v)
+    if isinstance(v, Bad):
+        return "bad"
+    return len(v) if isinstance(v, list) else 0
+
+
+class Precondition(RuntimeError):
+    """A requirement on the generated input (not on armi) does not hold: a harness error."""
+
+
+def total(driver, case_of=lambda args: args[-1]):
+    """Decorator: whatever the implementation returns, evaluating it never escapes as an exception -
+    an oracle that cannot evaluate a result reports that result as a violation."""
+    import functools
+    import traceback
+
+    def deco(f):
+        @functools.wraps(f)
+        def g(acc, *args):
+            try:
+                return f(acc, *args)
+            except Precondition:
+                raise
+            except Exception as e:
+                tb = traceback.extract_tb(e.__traceback__)[-1]
+                try:
+                    case = case_of(args)
+                except Exception:
+                    case = {"kind": "unknown"}
+                acc.bad(driver + "-oracle-cannot-evaluate", "evaluating the implementation's result raised %s: %s (at %s:%d %s)" % (type(e).__name__, str(e)[:200], tb.filename.split("/")[-1], tb.lineno, (tb.line or "")[:80]), case)
+
+        return g
+
+    return deco
 
 
 def _mag(v):
@@ -185,15 +247,16 @@ class _Factory:
 
 
 PARAMS = [
+    ("mgFluxGamma", "unset"),  # array parameter never set - FIRST in the mapper's list
     ("power", "vi"),
     ("mgFlux", "vi"),  # array valued
+    ("reactionRates", "vi"),  # array valued, unset in the FIRST (every even) block
     ("flux", "avg"),
     ("pdens", "const"),
+    ("THhotChannelCladODT", "unset"),  # scalar parameter never set - in the middle
     ("extSrc", "avg"),  # array valued
     ("fluxPeak", "peak"),
-    ("mgFluxGamma", "unset"),  # array parameter never set
-    ("THhotChannelCladODT", "unset"),  # scalar parameter never set
-    ("adjMgFlux", "vi"),  # array valued, set only in every other block
+    ("adjMgFlux", "vi"),  # array valued, set only in every other block (unset in odd blocks)
     # falsy-but-set boundary values: 0.0 and arrays of zeros are *set* and must be mapped like any value
     ("powerGamma", "vi"),  # scalar, 0.0 in odd blocks
     ("lastMgFlux", "vi"),  # array, all zeros in odd blocks
@@ -206,7 +269,7 @@ PARAMS = [
 # after A -> B these are written afresh on B (a solver's new state, zeros included) before B is mapped back
 REWRITTEN = ("powerGamma", "lastMgFlux", "mgFluxSK", "mgNeutronVelocity", "fluxAdj", "pdensDecay", "fluxAdjPeak")
 # array lengths (for the stale values written on a destination before state is mapped onto it)
-ARRLEN = {"mgFlux": 3, "extSrc": 2, "mgFluxGamma": 2, "adjMgFlux": 2, "lastMgFlux": 3, "mgFluxSK": 3, "mgNeutronVelocity": 2}
+ARRLEN = {"mgFlux": 3, "extSrc": 2, "mgFluxGamma": 2, "adjMgFlux": 2, "reactionRates": 4, "lastMgFlux": 3, "mgFluxSK": 3, "mgNeutronVelocity": 2}
 PEAKS = [3.0, 9.0, 4.0, 1.0, 7.0, 2.0, 8.0, 5.0]
 
 
@@ -225,6 +288,8 @@ def _profile(name, k, vs):
         return PEAKS[k % len(PEAKS)] + vs
     if name == "adjMgFlux":
         return [1.0 * (k + 1), 1.5 * (k + 1) + vs] if k % 2 == 0 else None
+    if name == "reactionRates":
+        return [0.5 * k + g + vs for g in (1.0, 2.0, 3.0, 4.0)] if k % 2 else None
     if name == "powerGamma":
         return 0.0 if k % 2 else 50.0 * (k + 1) + vs
     if name == "lastMgFlux":
@@ -272,14 +337,17 @@ def _set_profiles(a, vs):
     return prof
 
 
-def _mapper(a):
+def _mapper(a, rot=0):
+    """Real ParamMapper; the position of the unset / partially unset names in its list varies with rot."""
     from armi.reactor.converters import uniformMesh as um
 
-    pm = um.ParamMapper([], [n for n, _k in PARAMS], a[0])
+    names = [n for n, _k in PARAMS]
+    r = (5 * rot) % len(names)
+    pm = um.ParamMapper([], names[r:] + names[:r], a[0])
     for n, kind in PARAMS:  # precondition of the oracle: the location kinds are what the table says
         want = (kind == "vi", kind == "peak")
         if (bool(pm.isVolIntegrated[n]), bool(pm.isPeak[n])) != want and kind != "unset":
-            raise RuntimeError("parameter %s is not of kind %s in this armi" % (n, kind))
+            raise Precondition("parameter %s is not of kind %s in this armi" % (n, kind))
     return pm
 
 
@@ -302,15 +370,35 @@ def _params(a):
     return {n: [_pv(b.p[n]) for b in a] for n, _k in PARAMS}
 
 
-def _check_params(acc, tag, sfx, case, prof, got, sb, db, tol, prev=None):
+def _check_params(acc, tag, sfx, case, prof, got, sb, db, tol, prev=None, skip=()):
     """prof: source profile per param; got: destination values; prev: destination values before.
     ``tol`` is the relative rounding tolerance; overlaps thinner than 1e-10 of a source block may or
     may not be seen by the implementation (documented), the oracle allows for exactly their weight."""
+    bad = set(skip)
     for name, kind in PARAMS:
-        src = prof[name]
-        ref = max([_mag(v) for v in src] + [1.0])
-        pv = prev[name] if prev else None
+        if name in bad:
+            continue  # the source values themselves were already reported as unusable
         g = got[name]
+        pv = prev[name] if prev else None
+        # kind and shape first: scalar vs array (and its length) must be that of the reference
+        shapes = set(_shape(v) for v in list(prof[name]) + list(pv or []) if v is not None)
+        wrong = [(j, v) for j, v in enumerate(g) if v is not None and (_shape(v) == "bad" or (shapes and _shape(v) not in shapes))]
+        if wrong or len(shapes) > 1:
+            j, v = wrong[0] if wrong else (None, None)
+            acc.bad(tag + "-param-kind" + sfx, "%s: destination cell %s reads %r after mapping %s -> %s; expected %s like the source values %s" % (name, j, v, sb, db, " / ".join("scalar" if x == 0 else "array of %s" % x for x in sorted(shapes, key=str)) or "unset", prof[name]), case)
+            bad.add(name)
+            continue
+        try:
+            _check_one_param(acc, tag, sfx, case, name, kind, prof[name], g, pv, sb, db, tol)
+        except Exception as e:
+            acc.bad(tag + "-oracle-cannot-evaluate" + sfx, "%s: destination values %r (source %s, mapping %s -> %s) cannot be evaluated: %s: %s" % (name, g, prof[name], sb, db, type(e).__name__, str(e)[:120]), case)
+            bad.add(name)
+    return bad
+
+
+def _check_one_param(acc, tag, sfx, case, name, kind, src, g, pv, sb, db, tol):
+    for _once in (1,):
+        ref = max([_mag(v) for v in src] + [1.0])
         if kind == "unset":
             # documented: an unset source value is skipped, the destination is left alone
             if g != (pv if pv is not None else [None] * len(g)):
@@ -420,6 +508,7 @@ def _check_mesh(acc, key, case, a, want_bounds, what):
 # remesh: A -> B (new assembly on the target mesh) -> A (state mapped back)
 
 
+@total("remesh")
 def _remesh_one(acc, fac, case):
     from armi.reactor.converters import uniformMesh as um
 
@@ -436,14 +525,14 @@ def _remesh_one(acc, fac, case):
         return
     areas = [float(b.getVolume()) / float(b.getHeight()) for b in A]
     if max(areas) - min(areas) > 1e-9 * max(areas):
-        raise RuntimeError("generator precondition: blocks of unequal area %s" % areas)
+        raise Precondition("generator precondition: blocks of unequal area %s" % areas)
     prof = _set_profiles(A, vs)
-    pm = _mapper(A)
+    pm = _mapper(A, case["rot"])
     nucs = sorted(A.getNuclides())
     sdens = _densities(A, nucs)
     smass = _masses(A, nucs)
     if min(smass.values()) <= 0.0:
-        raise RuntimeError("generator precondition: nuclide without mass")
+        raise Precondition("generator precondition: nuclide without mass")
     # ---- A -> B
     try:
         B = um.UniformMeshGeometryConverter.makeAssemWithUniformMesh(A, list(mesh), paramMapper=pm, mapNumberDensities=True)
@@ -460,7 +549,7 @@ def _remesh_one(acc, fac, case):
         acc.bad("remesh-new-nuclide" + sfx, "nuclides %s appear in the re-meshed assembly only" % extra, case)
     bdens = _check_atoms(acc, "remesh", sfx, case, nucs, sdens, sb, B, db, tol, smass)
     bpar = _params(B)
-    _check_params(acc, "remesh", sfx, case, prof, bpar, sb, db, tol)
+    badp = _check_params(acc, "remesh", sfx, case, prof, bpar, sb, db, tol)
     if eps:
         acc.count("remesh_sliver_droppable" if _drop_frac(sb, db) > 0.0 else "remesh_sliver_must_be_counted" if any(0.0 < o < 1e-6 for j in range(len(db) - 1) for o in M.overlaps(sb, db[j], db[j + 1])) else "remesh_eps_no_sliver")
     # ---- B -> A on the real (heterogeneous) source assembly, which holds DIFFERENT prior values of every
@@ -483,7 +572,7 @@ def _remesh_one(acc, fac, case):
         return
     bmass = _masses(B, nucs)
     _check_atoms(acc, "backmap", sfx, case, nucs, bdens, db, A, sb, tol, bmass)
-    _check_params(acc, "backmap", sfx, case, bpar, _params(A), db, sb, tol, prev=apar0)
+    badp = _check_params(acc, "backmap", sfx, case, bpar, _params(A), db, sb, tol, prev=apar0, skip=[n for n in badp if n not in REWRITTEN])
     # ---- there and back: totals restored (two mappings -> twice the per-mapping tolerance)
     amass = _masses(A, nucs)
     for n in sorted(smass):
@@ -493,7 +582,7 @@ def _remesh_one(acc, fac, case):
             break
     apar = _params(A)
     for name, kind in PARAMS:
-        if kind != "vi" or name in REWRITTEN:
+        if kind != "vi" or name in REWRITTEN or name in badp:
             continue
         if any(w is None or only for w, _s, only in M.map_integrated(bpar[name], db, sb)):
             continue  # a cell that received nothing keeps its prior (stale) value: no total to restore
@@ -530,6 +619,7 @@ def _grid_points(H, scale):
     return sorted(pts)
 
 
+@total("between", lambda a: dict(a[4], kind="between1", z0=a[2], z1=a[3]))
 def _between_pair(acc, A, sb, z0, z1, base):
     case = dict(base, kind="between1", z0=z0, z1=z1)
     acc.n += 1
@@ -571,6 +661,7 @@ def _between_pair(acc, A, sb, z0, z1, base):
         acc.count("between_sliver_dropped")
 
 
+@total("blockat", lambda a: dict(a[3], kind="blockat1", z=a[2]))
 def _blockat(acc, A, sb, z, base):
     case = dict(base, kind="blockat1", z=z)
     acc.n += 1
@@ -645,6 +736,7 @@ def _apply_mesh(a, mesh, flag):
         a.setBlockMesh(list(mesh), conserveMassFlag=flag)
 
 
+@total("setmesh")
 def _setmesh_one(acc, fac, case):
     from armi.reactor.flags import Flags
 
@@ -768,6 +860,7 @@ def _material_bounds(h1, h2, hc, scale):
     return out
 
 
+@total("gen")
 def _gen_one(acc, case):
     import numpy as np
     from armi.reactor.converters import uniformMesh as um
@@ -785,7 +878,7 @@ def _gen_one(acc, case):
     r = build.reactor(_core_spec(h1, h2, hc, scale), cs=csd)
     got_meshes = sorted([float(x) for x in a.getAxialMesh()] for a in r.core)
     if got_meshes != sorted(meshes):
-        raise RuntimeError("generator precondition: core meshes %s, wanted %s" % (got_meshes, meshes))
+        raise Precondition("generator precondition: core meshes %s, wanted %s" % (got_meshes, meshes))
     avg_mesh = None
     if None not in case["mins"]:  # replaying a single minimum: the candidate set needs the average mesh
         g0 = um.UniformMeshGenerator(r, minimumMeshSize=None)
@@ -854,6 +947,7 @@ def _gen_one(acc, case):
             _convert_roundtrip(acc, dict(c1, convert=[m]), h1, h2, hc, scale, m, res)
 
 
+@total("conv", lambda a: a[0])
 def _convert_roundtrip(acc, case, h1, h2, hc, scale, m, mesh):
     """Real NeutronicsUniformMeshConverter: convert (atoms), set state on the uniform core, map it back."""
     import numpy as np
@@ -909,6 +1003,11 @@ def _convert_roundtrip(acc, case, h1, h2, hc, scale, m, mesh):
             return
         for n in names:
             g = [_pv(b.p[n]) for b in a]
+            shapes = set(_shape(v) for v in prof[n] if v is not None)
+            wrong = [(j, v) for j, v in enumerate(g) if v is not None and _shape(v) not in shapes]
+            if wrong:
+                acc.bad("conv-back-param-kind", "%s: cell %d of %s reads %r after applyStateToOriginal; the uniform mesh held %s" % (n, wrong[0][0], sb, wrong[0][1], prof[n]), case)
+                continue
             ref = max([_mag(v) for v in prof[n]] + [1.0])
             if kinds[n] == "vi":
                 want = M.map_integrated(prof[n], db, sb)
@@ -948,6 +1047,7 @@ def _eval_gen_batch(item):
 # filter: UniformMeshGenerator._filterMesh
 
 
+@total("filter", lambda a: {"kind": "filter1", "points": a[1], "min": a[2], "anchors": a[3], "pref": a[4], "ghost": a[5], "order": a[6]})
 def _filter_one(acc, gen, points, minimum, anchors, pref, ghost, order):
     case = {"kind": "filter1", "points": points, "min": minimum, "anchors": anchors, "pref": pref, "ghost": ghost, "order": order}
     acc.n += 1
@@ -1054,6 +1154,7 @@ def _resample_call(mode, xin, yin, xout, avg):
     return ("ok", [_pv(v) if v is not None else None for v in out], mod, after[1])
 
 
+@total("resample")
 def _resample_one(acc, case):
     xin, xout, avg, mode, vs, fam = case["xin"], case["xout"], case["avg"], case["mode"], case["vs"], case["fam"]
     acc.n += 1
@@ -1166,6 +1267,7 @@ def _eval_resample1(case):
 # avg1d: mathematics.average1DWithinTolerance
 
 
+@total("avg1d")
 def _avg1d_one(acc, case):
     import numpy as np
     from armi.utils.mathematics import average1DWithinTolerance
